@@ -2,13 +2,17 @@
    Statements are pinned by coq/statements/C12.json; ./check compares. *)
 From Coq Require Import Bool List NArith ZArith Lia.
 From M Require C12Proofs.
+From M Require Tie.
 From M Require RegModel.
 From M Require RegProofs.
 Import ListNotations.
 
-Module T_classify. Import C12Proofs. Import RegModel RegProofs. Local Open Scope Z_scope.
+Module T_classify. Import C12Proofs. Local Open Scope bool_scope. Local Open Scope Z_scope.
+Import RegModel RegProofs. Local Open Scope Z_scope. Local Open Scope N_scope.
+Local Open Scope Z_scope.
 Theorem C12_classify :
-  forall c, -32768 <= c <= 32767 -> class_bits c = spec_class c.
+  forall c,
+  -32768 <= c <= 32767 -> class_bits c = spec_class c.
 Proof. exact (@C12Proofs.classify). Qed.
 End T_classify.
 Definition C12_classify := @T_classify.C12_classify.
@@ -25,4 +29,29 @@ Theorem C12_srq_step :
 Proof. exact (@C12Proofs.srq_step). Qed.
 End T_srq_step.
 Definition C12_srq_step := @T_srq_step.C12_srq_step.
+
+Module T_tie_err_classes. Import Tie. Local Open Scope bool_scope. Local Open Scope Z_scope.
+Local Open Scope Z_scope.
+Theorem C12_tie_err_classes :
+  RegModel.errs = Generated.gen_err_classes.
+Proof. exact (@Tie.tie_err_classes). Qed.
+End T_tie_err_classes.
+Definition C12_tie_err_classes := @T_tie_err_classes.C12_tie_err_classes.
+
+Module T_tie_reg_tables. Import Tie. Local Open Scope bool_scope. Local Open Scope Z_scope.
+Local Open Scope Z_scope.
+Theorem C12_tie_reg_tables :
+  Generated.gen_reg_count = Z.of_nat (length regs_in_order) /\
+  map (fun i => details_from_tables i) (seq 0 (length regs_in_order)) = map (fun r => Some (RegModel.details r)) regs_in_order.
+Proof. exact (@Tie.tie_reg_tables). Qed.
+End T_tie_reg_tables.
+Definition C12_tie_reg_tables := @T_tie_reg_tables.C12_tie_reg_tables.
+
+Module T_tie_stb_bits. Import Tie. Local Open Scope bool_scope. Local Open Scope Z_scope.
+Local Open Scope Z_scope.
+Theorem C12_tie_stb_bits :
+  Generated.gen_stb_bits = [RegModel.SRQ; RegModel.QMA; 32; 128; 8]%N /\ Generated.gen_reg_val_bits = 16.
+Proof. exact (@Tie.tie_stb_bits). Qed.
+End T_tie_stb_bits.
+Definition C12_tie_stb_bits := @T_tie_stb_bits.C12_tie_stb_bits.
 
